@@ -7,6 +7,12 @@ ROOT = os.path.dirname(os.path.dirname(os.path.abspath(__file__)))
 
 # property -> (design section, technique, level text, level note, category)
 CLAIMED = {
+    "C01": ("4 C01", "bounded exhaustive enumeration of operator sequences + property-based testing (rapid) of random typed expression trees against an independent reference interpreter; metamorphic layout equivalence",
+            "Exploration: all operator pairs and triples over several operand sets (exhaustive), hand-enumerated unary/postfix/ternary/member combinations and random typed trees to depth 5 with injected faults; each case is rendered in two layouts and compared with a reference interpreter written from the statement (precedence table, wrapping int64, IEEE doubles, string ops, listed error cases). No claim beyond the explored depth and operand values.",
+            "Trusted: lib/refint, lib/tw printers (validated per case by a reference parser round trip), lib/spec. Unspecified outcomes (e.g. bool == bool, float %, out-of-range index) are executed but not asserted. Float ++/-- accepts the IEEE result or the decimal-exact result.", "exploration"),
+    "C08": ("4 C08", "bounded exhaustive enumeration of lexeme sequences + property-based testing (rapid) of prefixes/mutations of generated valid templates and lexeme soups, with an out-of-band watchdog for non-termination",
+            "Exploration: every sequence of up to 3 (quick) / 4 (thorough) lexemes from the full lexeme alphabet; every prefix that ends inside a construct, illegal characters inside code and lexeme mutations of generated valid templates; random soups; the same as files of a template directory. Oracle: returns (watchdog: CPU-time based, confirmed and minimised out of process), no panic, program xor errors with line >= 1, must-reject classes rejected.",
+            "Trusted: the watchdog thresholds (10 s wall and 5 s CPU on one input of < 1 KB), the span bookkeeping of the printer that decides which prefixes must be rejected. Inputs containing NUL are lexed up to the NUL (lexer's end marker) and only need to terminate.", "exploration"),
     "C05": ("4 C05", "property-based testing (rapid) + bounded exhaustive enumeration against an independent reference scanner",
             "Exploration: every concatenation of up to k pieces of an adversarial alphabet (exhaustive) plus random longer texts, comment bodies and text runs spliced around blocks, each compared with an independent text-level reference (escape removal, comment elision, passthrough). Shows absence of violations only inside the enumerated bounds; beyond them it is sampling.",
             "Trusted: lib/reftext (scanner written from the statement), Go toolchain, rapid. Cases where the statement is silent (overlapping escapes, terminator overlapping the comment opener) are skipped and counted.", "exploration"),
